@@ -45,17 +45,38 @@ pub struct GeoCase {
     /// 1 finish() first, then length and position are set; 2 abandon_with_message()
     #[serde(default)]
     end: Option<u8>,
+    /// wide_bar only: the bar's tab width is `.0` while a first frame is drawn and `.1` for the frame under
+    /// test (TABs in the literals around the bar are expanded at the width in force)
+    #[serde(default)]
+    retab: Option<(u8, u8)>,
 }
 
 struct Parsed {
     filled: usize,
-    partial: Option<char>,
+    partial: Option<String>,
     bg: usize,
 }
 
-fn parse_bar(bar: &str, chars: &[char]) -> Result<Parsed, String> {
+/// the progress characters / the cells of a rendered bar as the crate segments them: grapheme clusters
+/// when it is built with `improved_unicode`, single code points otherwise
+fn cells_of(s: &str) -> Vec<String> {
+    #[cfg(feature = "improved_unicode")]
+    {
+        unicode_segmentation::UnicodeSegmentation::graphemes(s, true).map(String::from).collect()
+    }
+    #[cfg(not(feature = "improved_unicode"))]
+    {
+        s.chars().map(String::from).collect()
+    }
+}
+
+fn cell_width(c: &str) -> usize {
+    unicode_width::UnicodeWidthStr::width(c).max(1)
+}
+
+fn parse_bar(bar: &str, chars: &[String]) -> Result<Parsed, String> {
     let n = chars.len();
-    let cs: Vec<char> = bar.chars().collect();
+    let cs: Vec<String> = cells_of(bar);
     let mut i = 0;
     while i < cs.len() && cs[i] == chars[0] {
         i += 1;
@@ -63,7 +84,7 @@ fn parse_bar(bar: &str, chars: &[char]) -> Result<Parsed, String> {
     let filled = i;
     let mut partial = None;
     if n >= 3 && i < cs.len() && chars[1..n - 1].contains(&cs[i]) {
-        partial = Some(cs[i]);
+        partial = Some(cs[i].clone());
         i += 1;
     }
     let mut bg = 0;
@@ -78,7 +99,7 @@ fn parse_bar(bar: &str, chars: &[char]) -> Result<Parsed, String> {
 }
 
 /// All geometry laws for one rendered bar. `fraction` is the library's own `ProgressState::fraction()`.
-fn check_bar(bar: &str, chars: &[char], cwidth: usize, n_cols: usize, len: Option<u64>, pos: u64, fraction: f32) -> Result<(usize, usize, bool), Fail> {
+fn check_bar(bar: &str, chars: &[String], cwidth: usize, n_cols: usize, len: Option<u64>, pos: u64, fraction: f32) -> Result<(usize, usize, bool), Fail> {
     let p = parse_bar(bar, chars).map_err(|m| Fail::new("shape", m))?;
     let cells = n_cols / cwidth;
     let n = chars.len();
@@ -129,8 +150,8 @@ fn check_bar(bar: &str, chars: &[char], cwidth: usize, n_cols: usize, len: Optio
             return Err(Fail::new("partial_missing", format!("bar {bar:?} has no partial cell although it is neither empty nor full (pos {pos}, len {len:?})")));
         }
     }
-    if let Some(pc) = p.partial {
-        if !chars[1..n - 1].contains(&pc) {
+    if let Some(pc) = &p.partial {
+        if !chars[1..n - 1].contains(pc) {
             return Err(Fail::new("partial_char", format!("partial cell {pc:?} is not one of the configured characters")));
         }
     }
@@ -233,8 +254,8 @@ impl Rig {
 }
 
 fn run_geo(c: &GeoCase) -> CaseResult {
-    let chars: Vec<char> = c.chars.chars().collect();
-    let cwidth = unicode_width::UnicodeWidthChar::width(chars[0]).unwrap_or(1).max(1);
+    let chars: Vec<String> = cells_of(&c.chars);
+    let cwidth = cell_width(&chars[0]);
     let mut v = Verdict::default();
     match &c.wide {
         None => {
@@ -252,7 +273,7 @@ fn run_geo(c: &GeoCase) -> CaseResult {
             v.label_if(cwidth == 2, "double_width_cells");
             v.label_if(c.len.map_or(false, |l| l > 1 << 32), "huge_len");
             v.label_if(chars.len() == 2, "two_chars");
-            v.label_if(chars.last().map_or(false, |c| c.is_whitespace()), "blank_background_glyph");
+            v.label_if(chars.last().map_or(false, |c| c.chars().all(char::is_whitespace)), "blank_background_glyph");
         }
         Some((term, left, right)) => {
             let mut template = format!("{left}{{wide_bar}}{right}{{frac}}");
@@ -280,8 +301,17 @@ fn run_geo(c: &GeoCase) -> CaseResult {
                 v.label("terminal_resized_between_frames");
             }
             v.label_if(c.in_multi, "wide_bar_inside_multi_progress");
-            v.label_if(chars.last().map_or(false, |c| c.is_whitespace()), "blank_background_glyph");
+            v.label_if(chars.last().map_or(false, |c| c.chars().all(char::is_whitespace)), "blank_background_glyph");
             v.label_if(nlines > 1, "wide_bar_in_multi_line_template");
+            let tabbed = left.contains('\t') || right.contains('\t');
+            if let Some((w1, w2)) = c.retab {
+                r.pb.set_tab_width(w1 as usize % 13);
+                let _ = r.draw(Some(7), 3);
+                r.pb.set_tab_width(w2 as usize % 13);
+                v.label_if(tabbed && w1 % 13 != w2 % 13, "tab_width_changed_between_two_frames_of_a_line_with_a_tab");
+            }
+            let tw = c.retab.map_or(8, |(_, w2)| w2 as usize % 13);
+            let (left, right) = (&crate::model::expand_tabs(left, tw), &crate::model::expand_tabs(right, tw));
             let (line, frac) = r.draw_end(c.len, c.pos, c.end).map_err(|p| Fail::new("panic", format!("drawing {template:?} on {term} columns: {p}")))?;
             let rest = console::measure_text_width(left) + console::measure_text_width(right);
             let bar = line
@@ -304,6 +334,7 @@ fn run_geo(c: &GeoCase) -> CaseResult {
         }
     }
     v.label_if(c.order % 3 != 0, "template_set_after_progress_chars");
+    v.label_if(chars.iter().any(|c| c.chars().count() > 1), "progress_characters_of_several_code_points");
     v.label_if(c.end.is_some() && c.len.map_or(false, |l| c.pos > 0 && c.pos < l), "finished_bar_short_of_its_length");
     Ok(v)
 }
@@ -313,10 +344,10 @@ fn chars_strategy() -> BoxedStrategy<String> {
     (chars_strategy_visible(), 0u8..5)
         .prop_map(|(s, k)| {
             if k == 0 {
-                let mut cs: Vec<char> = s.chars().collect();
-                let wide = unicode_width::UnicodeWidthChar::width(cs[0]) == Some(2);
-                *cs.last_mut().unwrap() = if wide { '\u{3000}' } else { ' ' };
-                cs.into_iter().collect()
+                let mut cs = cells_of(&s);
+                let wide = cell_width(&cs[0]) == 2;
+                *cs.last_mut().unwrap() = if wide { "\u{3000}".to_string() } else { " ".to_string() };
+                cs.concat()
             } else {
                 s
             }
@@ -324,7 +355,28 @@ fn chars_strategy() -> BoxedStrategy<String> {
         .boxed()
 }
 
+/// progress characters that are grapheme clusters of several code points, two columns each (only a
+/// build with `improved_unicode` accepts them as one character each)
+#[cfg(feature = "improved_unicode")]
+const CLUSTERS: [&str; 6] = ["\u{2600}\u{fe0f}", "\u{2764}\u{fe0f}", "\u{1f44d}\u{1f3fd}", "\u{1f1e9}\u{1f1ea}", "\u{270c}\u{fe0f}", "\u{1f44b}\u{1f3fb}"];
+
 fn chars_strategy_visible() -> BoxedStrategy<String> {
+    #[cfg(feature = "improved_unicode")]
+    {
+        let plain = chars_strategy_plain();
+        let clusters = (2usize..=5, proptest::sample::subsequence(CLUSTERS.to_vec(), 5), any::<bool>()).prop_map(|(n, mut pool, rev)| {
+            if rev {
+                pool.reverse();
+            }
+            pool.into_iter().take(n).collect::<String>()
+        });
+        return prop_oneof![3 => plain, 2 => clusters].boxed();
+    }
+    #[cfg(not(feature = "improved_unicode"))]
+    chars_strategy_plain()
+}
+
+fn chars_strategy_plain() -> BoxedStrategy<String> {
     prop_oneof![
         3 => (2usize..=10, proptest::sample::subsequence(NARROW.to_vec(), 10), any::<bool>()).prop_map(|(n, mut pool, rev)| {
             if rev { pool.reverse(); }
@@ -362,11 +414,11 @@ fn geo_strategy() -> BoxedStrategy<GeoCase> {
     let width = prop_oneof![2 => 0u32..6, 5 => 0u32..80, 2 => 80u32..1000, 1 => 1000u32..=65535];
     let wide = proptest::option::weighted(
         0.35,
-        (prop_oneof![3 => 1u16..60, 1 => 60u16..300], "[a-z\\[ \u{e9}\u{4e16}]{0,8}", "[a-z\\] \u{e9}\u{4e16}]{0,8}"),
+        (prop_oneof![3 => 1u16..60, 1 => 60u16..300], "[a-z\\[ \u{e9}\u{4e16}\t]{0,8}", "[a-z\\] \u{e9}\u{4e16}\t]{0,8}"),
     );
     let extra = (proptest::option::weighted(0.3, "[a-z:. \u{e9}\u{4e16}]{0,12}"), proptest::option::weighted(0.3, "[a-z:. \u{e9}\u{4e16}]{0,12}"));
-    (chars_strategy(), width, len_pos_strategy(), wide, extra, any::<bool>(), proptest::option::weighted(0.3, 1u16..300), prop_oneof![3 => Just(0u8), 1 => Just(1u8), 1 => Just(2u8)], proptest::option::weighted(0.25, 0u8..3))
-        .prop_map(|(chars, width, (len, pos), wide, extra, in_multi, resized_from, order, end)| GeoCase { default_width: wide.is_none() && width % 7 == 0, chars, width, len, pos, wide, extra, in_multi, resized_from, order, end })
+    (chars_strategy(), width, len_pos_strategy(), wide, extra, any::<bool>(), proptest::option::weighted(0.3, 1u16..300), prop_oneof![3 => Just(0u8), 1 => Just(1u8), 1 => Just(2u8)], proptest::option::weighted(0.25, 0u8..3), proptest::option::weighted(0.3, (0u8..13, 0u8..13)))
+        .prop_map(|(chars, width, (len, pos), wide, extra, in_multi, resized_from, order, end, retab)| GeoCase { default_width: wide.is_none() && width % 7 == 0, chars, width, len, pos, wide, extra, in_multi, resized_from, order, end, retab })
         .boxed()
 }
 
@@ -376,8 +428,8 @@ fn geo_strategy() -> BoxedStrategy<GeoCase> {
 const SWEEP_SETS: [&str; 8] = ["#-", "#>-", "█▉▊▋░", "#=+.>x-", "#>=+.█▉▊▋░", "世界", "世中界", "世中文字界"];
 
 fn sweep_one(set: &str, n: usize, max_len: u64) -> Result<(u64, u64), (Value, Fail)> {
-    let chars: Vec<char> = set.chars().collect();
-    let cwidth = unicode_width::UnicodeWidthChar::width(chars[0]).unwrap_or(1).max(1);
+    let chars: Vec<String> = cells_of(set);
+    let cwidth = cell_width(&chars[0]);
     let template = format!("{{bar:{n}}}|{{frac}}");
     let mk = |len: u64, pos: u64| json!({"chars": set, "width": n, "len": len, "pos": pos, "wide": null});
     let r = rig(set, &template, u16::MAX).map_err(|p| (mk(0, 0), Fail::new("panic", p)))?;
@@ -447,8 +499,8 @@ fn replay_sweep(v: &Value) -> Result<CaseResult, String> {
 }
 
 fn sweep_one_len(set: &str, n: usize, len: u64) -> Result<(), (Value, Fail)> {
-    let chars: Vec<char> = set.chars().collect();
-    let cwidth = unicode_width::UnicodeWidthChar::width(chars[0]).unwrap_or(1).max(1);
+    let chars: Vec<String> = cells_of(set);
+    let cwidth = cell_width(&chars[0]);
     let template = format!("{{bar:{n}}}|{{frac}}");
     let r = rig(set, &template, u16::MAX).map_err(|p| (Value::Null, Fail::new("panic", p)))?;
     let mut prev = 0;
@@ -476,24 +528,29 @@ pub fn property() -> Property {
             "with exactly two progress characters the partial cell is drawn with the background character and is not distinguishable",
             "progress characters are distinct single-char clusters (default feature set segments by char)",
         ],
-        parts: vec![
-            Box::new(Enumerated {
+        parts: {
+            let mut parts: Vec<Box<dyn Part>> = vec![];
+            // (the second build of this check, with indicatif's `improved_unicode`, runs the random part only)
+            if !cfg!(feature = "improved_unicode") {
+                parts.push(Box::new(Enumerated {
                 name: "sweep",
                 rule: "bounded-exhaustive: 8 character sets (2,3,5,7,10 single-width; 2,3,5 double-width) x width 0..=40 (thorough 128) x len 0..=40 (128) x pos 0..=len+2; all geometry laws per point plus monotonicity of the filled count along pos; non-trivial = 0 < pos < len with >= 2 cells",
                 run: run_sweep,
                 replay: replay_sweep,
-            }),
-            Box::new(Gen::<GeoCase> {
-                name: "random",
-                rule: "random distinct character sets of 2..=10 clusters (1 or 2 columns), width 0..=65535, (len,pos) incl. powers of two, u64::MAX, unknown length; 35% through literal{wide_bar}literal on terminals 1..300 columns (line width == W - (avail mod c)); the template set before or after the characters (with_template().progress_chars(), progress_chars().template(), style().template() on the bar); a quarter of the bars abandoned or finished-then-resized before the frame; non-trivial = 0 < pos < len with >= 2 cells",
+            }));
+            }
+            parts.push(Box::new(Gen::<GeoCase> {
+                name: if cfg!(feature = "improved_unicode") { "random_improved_unicode" } else { "random" },
+                rule: "random distinct character sets of 2..=10 clusters (1 or 2 columns; in the build with improved_unicode two fifths of the sets consist of 2-5 grapheme clusters of several code points each - emoji with variation selector or skin tone, flags), width 0..=65535, (len,pos) incl. powers of two, u64::MAX, unknown length; 35% through literal{wide_bar}literal on terminals 1..300 columns (line width == W - (avail mod c)); the template set before or after the characters (with_template().progress_chars(), progress_chars().template(), style().template() on the bar); a quarter of the bars abandoned or finished-then-resized before the frame; non-trivial = 0 < pos < len with >= 2 cells",
                 strategy: |_| geo_strategy(),
                 cases: |t| t.pick(60_000, 1_000_000),
                 run: run_geo,
                 signature: no_signature,
-                essential: &["partial_progress", "full", "double_width_cells", "huge_len", "two_chars", "wide_bar", "bar_without_a_width", "blank_background_glyph", "wide_bar_in_multi_line_template", "wide_bar_inside_multi_progress", "terminal_resized_between_frames", "rest_does_not_fit", "odd_remainder", "template_set_after_progress_chars", "finished_bar_short_of_its_length"],
+                essential: &["partial_progress", "full", "double_width_cells", "huge_len", "two_chars", "wide_bar", "bar_without_a_width", "blank_background_glyph", "wide_bar_in_multi_line_template", "wide_bar_inside_multi_progress", "terminal_resized_between_frames", "rest_does_not_fit", "odd_remainder", "template_set_after_progress_chars", "finished_bar_short_of_its_length", "tab_width_changed_between_two_frames_of_a_line_with_a_tab"],
                 workers: w,
                 decode: None,
-            }),
-        ],
+            }));
+            parts
+        },
     }
 }
